@@ -54,6 +54,10 @@ type c33Case struct {
 	// 9 KB limit itself has to hold in UserEvent.
 	Raise int     `json:"raise,omitempty"`
 	Ops   []c33Op `json:"ops"`
+	// ClockBase > 0: before the operations the node witnesses a foreign user
+	// event and a foreign query at this Lamport time: the time field of what it
+	// sends afterwards takes 2, 3, 5 or 9 bytes on the wire instead of 1
+	ClockBase uint64 `json:"clock_base,omitempty"`
 }
 
 var c33Breakpoints = []int{31, 32, 255, 256, 65535, 65536}
@@ -72,6 +76,7 @@ func genC33(t *rapid.T) c33Case {
 	if rapid.IntRange(0, 5).Draw(t, "raise?") == 0 {
 		c.Raise = rapid.SampledFrom([]int{1, 2, 3, 100, 5000, 60000}).Draw(t, "raise")
 	}
+	c.ClockBase = rapid.SampledFrom([]uint64{0, 0, 126, 200, 254, 70000, 1 << 33, 1 << 62}).Draw(t, "clock_base")
 	n := rapid.IntRange(1, 8).Draw(t, "nops")
 	for i := 0; i < n; i++ {
 		op := c33Op{Kind: rapid.SampledFrom([]int{0, 0, 0, 1, 1, 2, 2}).Draw(t, "kind")}
@@ -170,6 +175,16 @@ func bodyC33(c c33Case, x *vkit.Ctx) {
 	defer n.Stop()
 	for i := 0; i < c.Members; i++ {
 		n.EventsD.NotifyJoin(node.MLNode(fmt.Sprintf("peer%d", i), fmt.Sprintf("10.0.0.%d", i+1), 7946, nil, 5, 5))
+	}
+	if c.ClockBase > 0 {
+		n.Delegate.NotifyMsg(mustEncode(serf.VerifMessageUserEventType, &serf.VerifMessageUserEvent{LTime: serf.LamportTime(c.ClockBase), Name: "c33-clock"}))
+		n.Delegate.NotifyMsg(mustEncode(serf.VerifMessageQueryType, foreignQuery(c.ClockBase, 0x7ffe0000, "c33-clock", nil)))
+		if _, ok := waitUserEvent(n, "c33-clock", 5*time.Second); !ok {
+			x.Inconclusive("the clock-raising event did not arrive")
+			return
+		}
+		n.Drain(node.Settle)
+		x.Labelf("clock-base-bytes=%d", len(mustEncode(0, c.ClockBase))-1)
 	}
 	cfgLimit := c.UELimit
 	if c.Raise > 0 {
